@@ -123,8 +123,8 @@ def main(argv=None):
         # vacuity: the hypotheses of the exits must not all be contradictory
         if isinstance(u, FunctionUnit) and u.engine is not None:
             verdicts = []
-            for kind, value, line, pc in u.engine.exits[:12]:
-                verdicts.append(solve.check_sat(ax, pc, 1500))
+            for kind, value, line, pc in u.engine.exits[:4]:
+                verdicts.append(solve.check_sat(ax, pc, 600))
             info["exit_hypotheses"] = {v: verdicts.count(v) for v in set(verdicts)}
             if verdicts and all(v == "unsat" for v in verdicts):
                 engine_errors.append("%s: every exit has contradictory hypotheses (vacuous)" % u.label)
